@@ -18,6 +18,13 @@ try:
     ap = subprocess.run(['git', '-C', wt, 'apply', f'{d}/patch.diff'], capture_output=True, text=True)
     out['apply_rc'] = ap.returncode
     out['apply_err'] = ap.stderr[-500:]
+    if ap.returncode == 0 and 'similarity.c' in open(f'{d}/patch.diff').read():
+        # the compiled kernel's generated C is a git-ignored build product: rebuild the extension from it
+        ce = f'{wt}/src/rsatoolbox/cengine'
+        cc = subprocess.run(['gcc', '-O2', '-shared', '-fPIC', '-w', '-I/root/.pyenv/versions/3.12.1/include/python3.12',
+                             '-I/venv/lib/python3.12/site-packages/numpy/_core/include', f'{ce}/similarity.c',
+                             '-o', f'{ce}/similarity.cpython-312-x86_64-linux-gnu.so'], capture_output=True, text=True)
+        out['rebuild_rc'] = cc.returncode
     if ap.returncode == 0:
         out['demo_patched_rc'], out['demo_patched_tail'] = demo()
         if '--no-suite' not in sys.argv:
